@@ -2,7 +2,7 @@
  * C16 - every sampler stays inside its support and follows its stated
  * distribution. The raw 64-bit generator is an enumerated environment (hook H2).
  *
- * options: mode=tables|lattice|seq  K=N  lbits=N
+ * options: mode=tables|lattice|aliasvec|seq  K=N  lbits=N  maxn=N
  */
 #include <float.h>
 #include <inttypes.h>
@@ -498,7 +498,9 @@ static double ref_mt_gamma(double shape)
         if (u < 1.0 - 0.0331 * (x * x) * (x * x)) {
             return d * v;
         }
-        if (log(u) < 0.5 * x * x + d * (1.0 - v + log(v))) {
+        /* u = 0: log u = -inf is below any finite bound (written out so that the reference itself does not
+         * divide by zero when the harness runs with the experiment's trap mask) */
+        if (u == 0.0 || log(u) < 0.5 * x * x + d * (1.0 - v + log(v))) {
             return d * v;
         }
     }
@@ -539,6 +541,9 @@ static const struct seqs SEQS[] = {
     { "binomial(7,0.5)", 20, 7, 0.5, 0, 0, S_COUNT_LE_N }, { "binomial(3,1)", 20, 3, 1.0, 0, 0, S_COUNT_LE_N },
     { "negative_binomial(2,0.5)", 21, 2, 0.5, 0, 0, S_COUNT }, { "negative_binomial(2,1)", 21, 2, 1.0, 0, 0, S_COUNT },
     { "poisson(2)", 22, 2, 0, 0, 0, S_COUNT }, { "triangular(0,0,0)", 23, 0, 0, 0, 0, S_RANGE },
+    /* the standard gamma sampler called directly: documented (and asserted) for every shape > 0 */
+    { "std_gamma(2.5)", 24, 2.5, 1, 0, 0, S_NONNEG }, { "std_gamma(0.5)", 24, 0.5, 1, 0, 0, S_NONNEG },
+    { "std_gamma(0.2)", 24, 0.2, 1, 0, 0, S_NONNEG },
 };
 #define NSEQS ((int)(sizeof SEQS / sizeof SEQS[0]))
 
@@ -555,6 +560,7 @@ static double lib_call(const struct seqs *s)
     case 7: return cmb_random_hypoexponential(3, HM);
     case 8: return cmb_random_hyperexponential(3, HM, HP);
     case 9: return cmb_random_gamma(s->a, s->b);
+    case 24: return cmb_random_std_gamma(s->a);
     case 10: return cmb_random_std_beta(s->a, s->b);
     case 11: return cmb_random_beta(s->a, s->b, s->c, s->d);
     case 12: return cmb_random_PERT(s->a, s->b, s->c);
@@ -612,7 +618,7 @@ static double ref_call(const struct seqs *s)
         }
         return HM[k] * cmb_random_std_exponential();
     }
-    case 9: return ref_gamma(s->a, s->b);
+    case 9: case 24: return ref_gamma(s->a, s->b);
     case 10: return ref_beta(s->a, s->b);
     case 11: return s->c + (s->d - s->c) * ref_beta(s->a, s->b);
     case 12:
@@ -690,10 +696,113 @@ static bool in_support(const struct seqs *s, double x)
     }
 }
 
+/*
+ * Every probability vector of length 1..maxn over the weights {0, 1, 2, 5} (normalised; exact zeros
+ * included, which is what a row of a transition matrix looks like): the alias table must give every
+ * outcome exactly its probability - zero for a zero entry - and neither sampler may ever return an
+ * outcome of probability zero, on a lattice of first raw words x {0, middle, max} second words.
+ */
+static void run_aliasvec(void)
+{
+    static const double W[4] = { 0.0, 1.0, 2.0, 5.0 };
+    const int maxn = (int)vx_opt_int("maxn", 5);
+    const unsigned n = 1u + (unsigned)vx_choose_free(maxn, "length");
+    double vec[8], tot = 0;
+    uint64_t h = n;
+    for (unsigned i = 0; i < n; i++) {
+        const int w = vx_choose_free(4, "weight");
+        vec[i] = W[w];
+        tot += vec[i];
+        h = vx_mix(h, (uint64_t)w);
+    }
+    if (tot == 0.0) {
+        return; /* not a distribution */
+    }
+    vx_state(h);
+    for (unsigned i = 0; i < n; i++) {
+        vec[i] /= tot;
+    }
+    char rule[160], desc[120] = "";
+    for (unsigned i = 0; i < n; i++) {
+        snprintf(desc + strlen(desc), sizeof desc - strlen(desc), "%s%.4g", i ? "," : "", vec[i]);
+    }
+    struct cmb_random_alias *al = cmb_random_alias_create(n, vec);
+    double P[8] = { 0 };
+    for (unsigned k = 0; k < n; k++) {
+        const double p = (al->uprob[k] == UINT64_MAX) ? 1.0 : (double)al->uprob[k] / 18446744073709551616.0;
+        P[k] += p / n;
+        if (p < 1.0) {
+            if (al->alias[k] >= n) {
+                snprintf(rule, sizeof rule, "aliasvec:alias-index-out-of-range:n%u", n);
+                FAIL(rule, "vector (%s): column %u is left with probability %.6g but its alias is %u", desc, k, 1.0 - p,
+                     al->alias[k]);
+                cmb_random_alias_destroy(al);
+                return;
+            }
+            P[al->alias[k]] += (1.0 - p) / n;
+        }
+    }
+    for (unsigned i = 0; i < n; i++) {
+        if (fabs(P[i] - vec[i]) > 1e-12) {
+            snprintf(rule, sizeof rule, "aliasvec:alias-table-mass:%s", vec[i] == 0.0 ? "zero-probability-outcome" : "positive-outcome");
+            FAIL(rule, "vector (%s): outcome %u has probability %.15g in the alias table, requested %.15g", desc, i, P[i], vec[i]);
+            cmb_random_alias_destroy(al);
+            return;
+        }
+    }
+    cmi_verif_sfc64_override = override_fn;
+    static const uint64_t W2[3] = { 0, 1ull << 63, UINT64_MAX };
+    double cnt_alias[8] = { 0 }, cnt_dice[8] = { 0 };
+    const unsigned NP = 1u << 10;
+    for (unsigned k = 0; k <= NP && vx_violations_this_exec() == 0; k++) {
+        const uint64_t wd = k < NP ? ((uint64_t)k << 54) : UINT64_MAX;
+        for (int j = 0; j < 3; j++) {
+            script[0] = wd;
+            script[1] = W2[j];
+            script_n = 2;
+            env_reset();
+            const unsigned ia = cmb_random_alias_sample(al);
+            script[0] = wd;
+            script[1] = W2[j];
+            env_reset();
+            const unsigned id = cmb_random_loaded_dice(n, vec);
+            vx_transitions(2);
+            if (ia >= n || id >= n || vec[ia] == 0.0 || vec[id] == 0.0) {
+                const bool a = ia >= n || vec[ia] == 0.0;
+                snprintf(rule, sizeof rule, "aliasvec:%s:%s", a ? "alias_sample" : "loaded_dice",
+                         (a ? ia : id) >= n ? "index-out-of-range" : "zero-probability-outcome-drawn");
+                FAIL(rule, "vector (%s), raw words %#" PRIx64 " %#" PRIx64 ": %s returned %u", desc, wd, W2[j],
+                     a ? "cmb_random_alias_sample" : "cmb_random_loaded_dice", a ? ia : id);
+                break;
+            }
+            if (k < NP && j == 1) {
+                cnt_alias[ia] += 1;
+                cnt_dice[id] += 1;
+            }
+        }
+    }
+    /* loaded dice is inversion of the first word: its lattice frequencies are the probabilities to 2/NP per
+     * boundary; the alias table's with the middle second word are within 1/n of a cell */
+    for (unsigned i = 0; i < n && vx_violations_this_exec() == 0; i++) {
+        if (fabs(cnt_dice[i] / NP - vec[i]) > 2.0 / NP + 1e-12) {
+            snprintf(rule, sizeof rule, "aliasvec:loaded_dice:frequency");
+            FAIL(rule, "vector (%s): outcome %u drawn on %.0f of %u lattice points, probability %.6g", desc, i, cnt_dice[i], NP, vec[i]);
+        }
+    }
+    vx_outcome(vx_hash_bytes(1, cnt_alias, sizeof cnt_alias));
+    cmi_verif_sfc64_override = NULL;
+    cmb_random_alias_destroy(al);
+}
+
 static void run_seq(void)
 {
     const int K = (int)vx_opt_int("K", 2);
     const struct seqs *s = &SEQS[vx_choose_free(NSEQS, "sampler")];
+    if (s->id == 23 && vx_opt_int("fptrap", 0)) {
+        /* the header documents min < mode < max; the degenerate point mass is accepted by the assertions and
+         * returns the point, but its 0/0 is not held against the library where invalid operations trap */
+        return;
+    }
     script_n = K;
     for (int k = 0; k < K; k++) {
         script[k] = OMEGA[vx_choose_free(nomega, "raw")];
@@ -760,6 +869,7 @@ static void run_one(void)
 {
     if (!strcmp(mode, "tables")) run_tables();
     else if (!strcmp(mode, "lattice")) run_lattice();
+    else if (!strcmp(mode, "aliasvec")) run_aliasvec();
     else run_seq();
 }
 
